@@ -1,4 +1,5 @@
 import Abverif.Proofs.Lemmas.WsFrame
+import Abverif.Model.WsSpec
 /-
 `Ext a b`: what every operation of the engine except `connectionLost` guarantees —
 the state only moves forward, `lost` and the configuration are untouched, and the log is extended by entries none
@@ -10,58 +11,101 @@ def Out.isOnClose : Out → Bool
   | .onClose .. => true
   | _ => false
 
-structure Ext (a b : S) : Prop where
+/-- a close frame that may legally be sent: the status code is one RFC 6455 §7.4 allows on the wire and the reason
+is at most 123 octets long -/
+def LegalClose (x : Option Nat × Option Bytes) : Prop :=
+  (∀ c, x.1 = some c → WsSpec.closeCodeOk c = true) ∧ (∀ r, x.2 = some r → r.length ≤ 123)
+
+/-- how an operation may change the record of close frames sent: not at all, or by sending one legal close frame while
+moving from (at most) OPEN to (at least) CLOSING -/
+def CloseStep (a b : S) : Prop :=
+  b.closeSent = a.closeSent ∨
+  (a.st.rank ≤ 1 ∧ 2 ≤ b.st.rank ∧ ∃ x, b.closeSent = a.closeSent ++ [x] ∧ LegalClose x)
+
+/-- while CLOSING a drop timer is armed (unless that timeout is configured off): the closing-handshake timer while we
+wait for the peer's close frame, or — client only — the server-connection-drop timer while we wait for the TCP drop -/
+def CBInv (s : S) : Prop :=
+  s.st = .closing →
+    (s.tCloseHs.isSome ∨ s.cfg.closeHsTimeout = 0) ∨
+    (s.cfg.isServer = false ∧ (s.tServerDrop.isSome ∨ s.cfg.serverDropTimeout = 0))
+
+/-- the part of `Ext` that every function satisfies, including those that leave the connection momentarily CLOSING
+without a timer (the reply to a peer close, before `afterCloseHandshake` runs) -/
+structure ExtW (a b : S) : Prop where
   rank : a.st.rank ≤ b.st.rank
   lost : b.lost = a.lost
   cfg : b.cfg = a.cfg
   log : ∃ d, b.log = a.log ++ d ∧ ∀ o ∈ d, o.isOnClose = false
+  cs : CloseStep a b
 
-theorem Ext.refl (a : S) : Ext a a := ⟨Nat.le_refl _, rfl, rfl, [], by simp, by simp⟩
+structure Ext (a b : S) : Prop extends ExtW a b where
+  cb : CBInv a → CBInv b
 
-theorem Ext.trans {a b c : S} (h1 : Ext a b) (h2 : Ext b c) : Ext a c := by
+theorem ExtW.refl (a : S) : ExtW a a := ⟨Nat.le_refl _, rfl, rfl, ⟨[], by simp, by simp⟩, Or.inl rfl⟩
+
+theorem ExtW.trans {a b c : S} (h1 : ExtW a b) (h2 : ExtW b c) : ExtW a c := by
   obtain ⟨d1, e1, n1⟩ := h1.log
   obtain ⟨d2, e2, n2⟩ := h2.log
-  refine ⟨Nat.le_trans h1.rank h2.rank, by rw [h2.lost, h1.lost], by rw [h2.cfg, h1.cfg], d1 ++ d2, ?_, ?_⟩
+  refine ⟨Nat.le_trans h1.rank h2.rank, by rw [h2.lost, h1.lost], by rw [h2.cfg, h1.cfg], ⟨d1 ++ d2, ?_, ?_⟩, ?_⟩
   · rw [e2, e1, List.append_assoc]
   · intro o ho
     rcases List.mem_append.mp ho with h | h
     · exact n1 o h
     · exact n2 o h
+  · rcases h1.cs with c1 | ⟨ra, rb, x, ex, lx⟩
+    · rcases h2.cs with c2 | ⟨rb, rc, x, ex, lx⟩
+      · exact Or.inl (by rw [c2, c1])
+      · exact Or.inr ⟨Nat.le_trans h1.rank rb, rc, x, by rw [ex, c1], lx⟩
+    · rcases h2.cs with c2 | ⟨rb', rc, y, ey, ly⟩
+      · exact Or.inr ⟨ra, Nat.le_trans rb h2.rank, x, by rw [c2, ex], lx⟩
+      · omega
 
-/-- a change that touches neither state, `lost`, configuration nor log -/
-theorem Ext.of_eq {a b : S} (h1 : b.st = a.st) (h2 : b.lost = a.lost) (h3 : b.cfg = a.cfg) (h4 : b.log = a.log) :
-    Ext a b := ⟨by rw [h1]; exact Nat.le_refl _, h2, h3, [], by simp [h4], by simp⟩
+theorem Ext.refl (a : S) : Ext a a := ⟨ExtW.refl a, id⟩
+
+theorem Ext.trans {a b c : S} (h1 : Ext a b) (h2 : Ext b c) : Ext a c :=
+  ⟨h1.toExtW.trans h2.toExtW, fun h => h2.cb (h1.cb h)⟩
+
+theorem CBInv.of_eq {a b : S} (h1 : b.st = a.st) (h3 : b.cfg = a.cfg) (h6 : b.tCloseHs = a.tCloseHs)
+    (h7 : b.tServerDrop = a.tServerDrop) (h : CBInv a) : CBInv b := by
+  unfold CBInv at *
+  rw [h1, h3, h6, h7]; exact h
+
+theorem Ext.of_eq {a b : S} (h1 : b.st = a.st) (h2 : b.lost = a.lost) (h3 : b.cfg = a.cfg) (h4 : b.log = a.log)
+    (h5 : b.closeSent = a.closeSent) (h6 : b.tCloseHs = a.tCloseHs) (h7 : b.tServerDrop = a.tServerDrop) :
+    Ext a b := ⟨⟨by rw [h1]; exact Nat.le_refl _, h2, h3, ⟨[], by simp [h4], by simp⟩, Or.inl h5⟩,
+      CBInv.of_eq h1 h3 h6 h7⟩
 
 theorem emit_Ext (s : S) (o : Out) (h : o.isOnClose = false) : Ext s (s.emit o) :=
-  ⟨Nat.le_refl _, rfl, rfl, [o], rfl, by simpa using h⟩
+  ⟨⟨Nat.le_refl _, rfl, rfl, ⟨[o], rfl, by simpa using h⟩, Or.inl rfl⟩, id⟩
 
 /-- anything in the send family -/
 theorem SendEq.toExt {a b : S} (h : SendEq a b) (hl : ∃ d, b.log = a.log ++ d ∧ ∀ o ∈ d, o.isOnClose = false) :
-    Ext a b := ⟨by rw [h.st]; exact Nat.le_refl _, h.lost, h.cfg, hl⟩
+    Ext a b := ⟨⟨by rw [h.st]; exact Nat.le_refl _, h.lost, h.cfg, hl, Or.inl h.closeSent⟩,
+      CBInv.of_eq h.st h.cfg h.tCloseHs h.tServerDrop⟩
 
-theorem timer_Ext (s : S) (d : Nat) : Ext s (s.timer d).1 := Ext.of_eq rfl rfl rfl rfl
+theorem timer_Ext (s : S) (d : Nat) : Ext s (s.timer d).1 := Ext.of_eq rfl rfl rfl rfl rfl rfl rfl
 
 theorem sendTick_Ext (s : S) : Ext s (sendTick s) := by
   unfold sendTick S.timer
   split
   · dsimp only
     split
-    · exact Ext.trans (by exact Ext.of_eq rfl rfl rfl rfl) (Ext.trans (emit_Ext _ _ rfl) (by exact Ext.of_eq rfl rfl rfl rfl))
-    · exact Ext.of_eq rfl rfl rfl rfl
-  · exact Ext.of_eq rfl rfl rfl rfl
+    · exact Ext.trans (by exact Ext.of_eq rfl rfl rfl rfl rfl rfl rfl) (Ext.trans (emit_Ext _ _ rfl) (by exact Ext.of_eq rfl rfl rfl rfl rfl rfl rfl))
+    · exact Ext.of_eq rfl rfl rfl rfl rfl rfl rfl
+  · exact Ext.of_eq rfl rfl rfl rfl rfl rfl rfl
 
 theorem trigger_Ext (s : S) : Ext s (trigger s) := by
   unfold trigger
   split
-  · exact Ext.trans (by exact Ext.of_eq rfl rfl rfl rfl) (sendTick_Ext _)
+  · exact Ext.trans (by exact Ext.of_eq rfl rfl rfl rfl rfl rfl rfl) (sendTick_Ext _)
   · exact Ext.refl s
 
 theorem sendData_Ext (s : S) (d : Bytes) (sync : Bool) (chop : Nat) : Ext s (sendData s d sync chop) := by
   unfold sendData
   split
-  · exact Ext.trans (by exact Ext.of_eq rfl rfl rfl rfl) (trigger_Ext _)
+  · exact Ext.trans (by exact Ext.of_eq rfl rfl rfl rfl rfl rfl rfl) (trigger_Ext _)
   · split
-    · exact Ext.trans (by exact Ext.of_eq rfl rfl rfl rfl) (trigger_Ext _)
+    · exact Ext.trans (by exact Ext.of_eq rfl rfl rfl rfl rfl rfl rfl) (trigger_Ext _)
     · split
       · exact emit_Ext _ _ rfl
       · exact emit_Ext _ _ rfl
@@ -69,10 +113,10 @@ theorem sendData_Ext (s : S) (d : Bytes) (sync : Bool) (chop : Nat) : Ext s (sen
 theorem drawKey_Ext (s : S) : Ext s (drawKey s).1 := by
   unfold drawKey
   split
-  · exact Ext.of_eq rfl rfl rfl rfl
+  · exact Ext.of_eq rfl rfl rfl rfl rfl rfl rfl
   · exact Ext.refl _
 
-theorem recordOp_Ext (s : S) (op : Nat) : Ext s (recordOp s op) := Ext.of_eq rfl rfl rfl rfl
+theorem recordOp_Ext (s : S) (op : Nat) : Ext s (recordOp s op) := Ext.of_eq rfl rfl rfl rfl rfl rfl rfl
 
 theorem sendFrame_Ext (s : S) (opcode : Nat) (pl : Bytes) (fin : Bool) (rsv : Nat) (sync : Bool) (chop : Nat) :
     Ext s (sendFrame s opcode pl fin rsv sync chop) := by
@@ -100,62 +144,131 @@ theorem sendPong_Ext (s : S) (pl : Bytes) : Ext s (sendPong s pl) := by
 
 /-- raising the state is an extension -/
 theorem Ext.of_st {a b : S} (hr : a.st.rank ≤ b.st.rank) (h2 : b.lost = a.lost) (h3 : b.cfg = a.cfg)
-    (h4 : b.log = a.log) : Ext a b := ⟨hr, h2, h3, [], by simp [h4], by simp⟩
+    (h4 : b.log = a.log) (h5 : b.closeSent = a.closeSent) (hnc : b.st ≠ .closing) : Ext a b :=
+  ⟨⟨hr, h2, h3, ⟨[], by simp [h4], by simp⟩, Or.inl h5⟩, fun _ hc => absurd hc hnc⟩
 
-theorem armCloseHs_Ext (s : S) : Ext s (armCloseHs s) := Ext.of_eq rfl rfl rfl rfl
-theorem armServerDrop_Ext (s : S) : Ext s (armServerDrop s) := Ext.of_eq rfl rfl rfl rfl
-theorem armPingNext_Ext (s : S) : Ext s (armPingNext s) := Ext.of_eq rfl rfl rfl rfl
-theorem armPingTimeout_Ext (s : S) : Ext s (armPingTimeout s) := Ext.of_eq rfl rfl rfl rfl
+theorem armCloseHs_Ext (s : S) : Ext s (armCloseHs s) :=
+  ⟨⟨Nat.le_refl _, rfl, rfl, ⟨[], by simp [armCloseHs, S.timer], by simp⟩, Or.inl rfl⟩,
+   fun _ _ => Or.inl (Or.inl (by simp [armCloseHs, S.timer]))⟩
+theorem armServerDrop_Ext (s : S) : Ext s (armServerDrop s) :=
+  ⟨⟨Nat.le_refl _, rfl, rfl, ⟨[], by simp [armServerDrop, S.timer], by simp⟩, Or.inl rfl⟩,
+   fun h hc => by
+     rcases h hc with h1 | ⟨h2, _⟩
+     · exact Or.inl h1
+     · exact Or.inr ⟨h2, Or.inl (by simp [armServerDrop, S.timer])⟩⟩
+theorem armPingNext_Ext (s : S) : Ext s (armPingNext s) := Ext.of_eq rfl rfl rfl rfl rfl rfl rfl
+theorem armPingTimeout_Ext (s : S) : Ext s (armPingTimeout s) := Ext.of_eq rfl rfl rfl rfl rfl rfl rfl
 
-theorem sendCloseFrame_Ext (s : S) (code : Option Nat) (reason : Option Bytes) (isReply : Bool) :
-    Ext s (sendCloseFrame s code reason isReply) := by
+theorem sendCloseFrame_ExtW (s : S) (code : Option Nat) (reason : Option Bytes) (isReply : Bool)
+    (hl : LegalClose (code, reason)) :
+    ExtW s (sendCloseFrame s code reason isReply) := by
   unfold sendCloseFrame
   split
-  · exact Ext.refl s
-  · exact Ext.refl s
-  · exact emit_Ext _ _ rfl
+  · exact ExtW.refl s
+  · exact ExtW.refl s
+  · exact (emit_Ext _ _ rfl).toExtW
   · rename_i hst
     dsimp only
     have h1 := sendFrame_Ext s 8 (closePayload code reason) true 0 false 0
-    have hr : s.st.rank ≤ St.closing.rank := by rw [hst]; decide
-    have h2 : Ext s { sendFrame s 8 (closePayload code reason) with
+    have hq := sendFrame_SendEq s 8 (closePayload code reason) true 0 false 0
+    have h2 : ExtW s { sendFrame s 8 (closePayload code reason) with
         st := .closing, closedByMe := !isReply, localCloseCode := code,
         closeSent := (sendFrame s 8 (closePayload code reason)).closeSent ++ [(code, reason)] } := by
-      refine h1.trans (Ext.of_st ?_ rfl rfl rfl)
-      rw [(sendFrame_SendEq _ _ _ _ _ _ _).st]; exact hr
+      obtain ⟨d, e, n⟩ := h1.log
+      refine ⟨by rw [hst]; simp [St.rank], h1.lost, h1.cfg, ⟨d, e, n⟩,
+        Or.inr ⟨by rw [hst]; simp [St.rank], by simp [St.rank], (code, reason), ?_, hl⟩⟩
+      show (sendFrame s 8 (closePayload code reason)).closeSent ++ [(code, reason)] = s.closeSent ++ [(code, reason)]
+      rw [hq.closeSent]
     split
-    · exact h2.trans (armCloseHs_Ext _)
+    · exact h2.trans (armCloseHs_Ext _).toExtW
     · exact h2
+
+/-- when we initiate the closing handshake (`isReply = False`) the closing-handshake timer is armed -/
+theorem sendCloseFrame_Ext (s : S) (code : Option Nat) (reason : Option Bytes)
+    (hl : LegalClose (code, reason)) :
+    Ext s (sendCloseFrame s code reason false) := by
+  refine ⟨sendCloseFrame_ExtW s code reason false hl, ?_⟩
+  intro hcb
+  unfold sendCloseFrame
+  split
+  · exact hcb
+  · exact hcb
+  · exact hcb
+  · dsimp only
+    have hq := sendFrame_SendEq s 8 (closePayload code reason) true 0 false 0
+    split
+    · intro _; exact Or.inl (Or.inl (by simp [armCloseHs, S.timer]))
+    · rename_i hne
+      intro _
+      left; right
+      have : (sendFrame s 8 (closePayload code reason)).cfg.closeHsTimeout = 0 := by
+        simpa using hne
+      simpa using this
+
+theorem dropIncompleteTail_length (bs : Bytes) (fuel : Nat) : (dropIncompleteTail bs fuel).length ≤ bs.length := by
+  induction fuel generalizing bs with
+  | zero => simp [dropIncompleteTail]
+  | succ n ih =>
+    unfold dropIncompleteTail
+    split
+    · exact Nat.le_refl _
+    · exact Nat.le_trans (ih _) (by simp)
+
+/-- `encode_truncate(text, limit)` never yields more than `limit` octets -/
+theorem encodeTruncate_le (u : Bytes) (n : Nat) : (encodeTruncate u n).length ≤ n := by
+  unfold encodeTruncate
+  split
+  · exact Nat.le_trans (dropIncompleteTail_length _ _) (by simp; omega)
+  · omega
 
 theorem sendClose_Ext (s : S) (code : Option Nat) (reason : Option Bytes) : Ext s (sendClose s code reason) := by
   unfold sendClose
   split
   · exact emit_Ext _ _ rfl
-  · split
+  · rename_i hbad
+    split
     · exact emit_Ext _ _ rfl
-    · exact sendCloseFrame_Ext _ _ _ _
+    · refine sendCloseFrame_Ext _ _ _ ⟨?_, ?_⟩
+      · intro c hc
+        simp only at hc
+        subst hc
+        simp only [sendCloseCodeBad, Bool.not_eq_true] at hbad
+        simp only [WsSpec.closeCodeOk]
+        by_cases h1 : c = 1000
+        · subst h1; decide
+        · have : (3000 ≤ c ∧ c ≤ 4999) := by
+            simp [h1] at hbad; exact hbad
+          simp; omega
+      · intro r hr
+        simp only at hr
+        cases reason with
+        | none => simp at hr
+        | some u => simp at hr; subst hr; exact encodeTruncate_le _ _
 
 theorem rank_le_closed (st : St) : st.rank ≤ St.closed.rank := by cases st <;> decide
 
 theorem dropConnection_Ext (s : S) (a : Bool) : Ext s (dropConnection s a) := by
   unfold dropConnection
   split
-  · exact Ext.trans (by exact Ext.of_st (rank_le_closed _) rfl rfl rfl)
+  · exact Ext.trans (by exact Ext.of_st (rank_le_closed _) rfl rfl rfl rfl (by simp))
       (Ext.trans (emit_Ext _ _ rfl) (emit_Ext _ _ rfl))
   · exact Ext.refl s
 
-theorem failConnection_Ext (s : S) (code : Nat) : Ext s (failConnection s code) := by
+theorem failConnection_Ext (s : S) (code : Nat) (hc : WsSpec.closeCodeOk code = true) : Ext s (failConnection s code) := by
   unfold failConnection
   split
   · dsimp only
     split
-    · exact Ext.trans (by exact Ext.of_eq rfl rfl rfl rfl) (dropConnection_Ext _ _)
+    · exact Ext.trans (by exact Ext.of_eq rfl rfl rfl rfl rfl rfl rfl) (dropConnection_Ext _ _)
     · split
-      · exact Ext.trans (by exact Ext.of_eq rfl rfl rfl rfl) (sendCloseFrame_Ext _ _ _ _)
-      · exact Ext.trans (by exact Ext.of_eq rfl rfl rfl rfl) (dropConnection_Ext _ _)
+      · refine Ext.trans (by exact Ext.of_eq rfl rfl rfl rfl rfl rfl rfl) (sendCloseFrame_Ext _ _ _ ⟨?_, ?_⟩)
+        · intro c h; simp at h; subst h; exact hc
+        · intro r h; simp at h
+      · exact Ext.trans (by exact Ext.of_eq rfl rfl rfl rfl rfl rfl rfl) (dropConnection_Ext _ _)
   · exact Ext.refl s
 
-theorem violation_Ext (s : S) (code : Nat) : Ext s (violation s code).1 := failConnection_Ext s code
+theorem violation_Ext (s : S) (code : Nat) (hc : WsSpec.closeCodeOk code = true) : Ext s (violation s code).1 :=
+  failConnection_Ext s code hc
 
 end Abverif.Ws
 
@@ -167,27 +280,65 @@ theorem closeCodeStep_Ext (s : S) (code : Option Nat) : Ext s (closeCodeStep s c
   unfold closeCodeStep
   split
   · split
-    · have hv := violation_Ext s 1002
+    · have hv := violation_Ext s 1002 (by decide)
       generalize violation s 1002 = r at hv
       obtain ⟨s', stop⟩ := r
       dsimp only
       split
       · exact hv
-      · exact hv.trans (by exact Ext.of_eq rfl rfl rfl rfl)
-    · exact Ext.of_eq rfl rfl rfl rfl
-  · exact Ext.of_eq rfl rfl rfl rfl
+      · exact hv.trans (by exact Ext.of_eq rfl rfl rfl rfl rfl rfl rfl)
+    · exact Ext.of_eq rfl rfl rfl rfl rfl rfl rfl
+  · exact Ext.of_eq rfl rfl rfl rfl rfl rfl rfl
 
 theorem closeReasonStep_Ext (s : S) (r : Option Bytes) : Ext s (closeReasonStep s r).1 := by
   unfold closeReasonStep
   split
   · split
-    · exact violation_Ext _ _
-    · exact Ext.of_eq rfl rfl rfl rfl
+    · exact violation_Ext _ _ (by decide)
+    · exact Ext.of_eq rfl rfl rfl rfl rfl rfl rfl
   · exact Ext.refl s
 
-theorem replyClose_Ext (s : S) : Ext s (replyClose s) := by
+theorem mem_allowed' (code : Nat) :
+    closeCodesAllowed.contains code = true ↔ (1000 ≤ code ∧ code ≤ 1003) ∨ (1007 ≤ code ∧ code ≤ 1013) := by
+  simp only [closeCodesAllowed, List.contains_iff_mem, List.mem_cons, List.not_mem_nil, or_false]
+  omega
+
+theorem close_code_rule' (code : Nat) : closeCodeInvalid code = false ↔ WsSpec.closeCodeOk code = true := by
+  have hm := mem_allowed' code
+  unfold closeCodeInvalid WsSpec.closeCodeOk
+  generalize closeCodesAllowed.contains code = c at hm
+  cases c <;> simp at hm ⊢ <;> omega
+
+/-- what `onCloseFrame` has recorded about the peer's close frame is fit to be echoed -/
+def RCLegal (s : S) : Prop :=
+  ∀ c, s.remoteCloseCode = some c → WsSpec.closeCodeOk c = true
+
+theorem replyClose_ExtW (s : S) (h : RCLegal s) : ExtW s (replyClose s) := by
   unfold replyClose
-  split <;> exact sendCloseFrame_Ext _ _ _ _
+  split
+  · refine sendCloseFrame_ExtW _ _ _ _ ⟨h, ?_⟩
+    intro r hr
+    simp only at hr
+    cases hrr : s.remoteCloseReason with
+    | none => simp [hrr] at hr
+    | some u => simp [hrr] at hr; subst hr; exact encodeTruncate_le _ _
+  · refine sendCloseFrame_ExtW _ _ _ _ ⟨?_, ?_⟩
+    · intro c hc; simp at hc; subst hc; decide
+    · intro r hr; simp at hr
+
+/-- after `afterCloseHandshake` the connection is CLOSED (server) or a client with the server-drop timer armed
+(or that timeout configured off): `CBInv` holds whatever came before -/
+theorem afterCloseHandshake_cb (s : S) (a : Bool) : CBInv (afterCloseHandshake s a).1 := by
+  unfold afterCloseHandshake CBInv
+  split
+  · intro hc; rw [dropConnection_st] at hc; cases hc
+  · rename_i hsrv
+    split
+    · intro _; right
+      exact ⟨by simpa [armServerDrop, S.timer] using hsrv, Or.inl (by simp [armServerDrop, S.timer])⟩
+    · rename_i hz
+      intro _; right
+      exact ⟨by simpa using hsrv, Or.inr (by simpa using hz)⟩
 
 theorem afterCloseHandshake_Ext (s : S) (a : Bool) : Ext s (afterCloseHandshake s a).1 := by
   unfold afterCloseHandshake
@@ -197,27 +348,89 @@ theorem afterCloseHandshake_Ext (s : S) (a : Bool) : Ext s (afterCloseHandshake 
     · exact armServerDrop_Ext _
     · exact Ext.refl s
 
-theorem closeStateStep_Ext (s : S) : Ext s (closeStateStep s).1 := by
+theorem closeStateStep_Ext (s : S) (h : RCLegal s) : Ext s (closeStateStep s).1 := by
   unfold closeStateStep
   split
-  · exact Ext.trans (by exact Ext.of_eq rfl rfl rfl rfl) (afterCloseHandshake_Ext _ _)
-  · exact Ext.trans (Ext.trans (by exact Ext.of_eq rfl rfl rfl rfl) (replyClose_Ext _)) (afterCloseHandshake_Ext _ _)
-  · exact Ext.of_eq rfl rfl rfl rfl
+  · have h0 : ExtW s { s with tCloseHs := none, wasClean := true } :=
+      ⟨Nat.le_refl _, rfl, rfl, ⟨[], by simp, by simp⟩, Or.inl rfl⟩
+    exact ⟨h0.trans (afterCloseHandshake_Ext _ _).toExtW, fun _ => afterCloseHandshake_cb _ _⟩
+  · have h0 : ExtW s { s with wasClean := true } := (by exact Ext.of_eq rfl rfl rfl rfl rfl rfl rfl : Ext s _).toExtW
+    exact ⟨(h0.trans (replyClose_ExtW { s with wasClean := true } h)).trans (afterCloseHandshake_Ext _ _).toExtW,
+      fun _ => afterCloseHandshake_cb _ _⟩
+  · exact Ext.of_eq rfl rfl rfl rfl rfl rfl rfl
   · exact emit_Ext _ _ rfl
+
+theorem dropConnection_rcc (s : S) (a : Bool) : (dropConnection s a).remoteCloseCode = s.remoteCloseCode := by
+  unfold dropConnection; split <;> rfl
+
+theorem sendCloseFrame_rcc (s : S) (c : Option Nat) (r : Option Bytes) (b : Bool) :
+    (sendCloseFrame s c r b).remoteCloseCode = s.remoteCloseCode := by
+  unfold sendCloseFrame
+  split
+  · rfl
+  · rfl
+  · rfl
+  · dsimp only
+    split
+    · show (sendFrame s 8 (closePayload c r)).remoteCloseCode = s.remoteCloseCode
+      exact (sendFrame_SendEq _ _ _ _ _ _ _).remoteCloseCode
+    · exact (sendFrame_SendEq _ _ _ _ _ _ _).remoteCloseCode
+
+theorem failConnection_rcc (s : S) (code : Nat) : (failConnection s code).remoteCloseCode = s.remoteCloseCode := by
+  unfold failConnection
+  split
+  · dsimp only
+    split
+    · rw [dropConnection_rcc]
+    · split
+      · rw [sendCloseFrame_rcc]
+      · rw [dropConnection_rcc]
+  · rfl
+
+/-- after the code check of `onCloseFrame` the recorded peer code (if any) is one that may appear on the wire -/
+theorem closeCodeStep_legal (s : S) (code : Option Nat) (h0 : s.remoteCloseCode = none) :
+    RCLegal (closeCodeStep s code).1 := by
+  unfold closeCodeStep RCLegal
+  split
+  · rename_i c
+    split
+    · have hr := failConnection_rcc s 1002
+      unfold violation
+      dsimp only
+      split
+      · intro c' hc'; rw [hr, h0] at hc'; cases hc'
+      · intro c' hc'; simp at hc'; subst hc'; decide
+    · rename_i hv
+      intro c' hc'
+      simp at hc'; subst hc'
+      exact (close_code_rule' c).mp (by simpa using hv)
+  · intro c' hc'; simp at hc'
+
+theorem closeReasonStep_rcc (s : S) (r : Option Bytes) : (closeReasonStep s r).1.remoteCloseCode = s.remoteCloseCode := by
+  unfold closeReasonStep
+  split
+  · split
+    · exact failConnection_rcc _ _
+    · rfl
+  · rfl
 
 theorem onCloseFrame_Ext (s : S) (code : Option Nat) (reason : Option Bytes) : Ext s (onCloseFrame s code reason).1 := by
   unfold onCloseFrame
   dsimp only
-  have h0 : Ext s { s with remoteCloseCode := none, remoteCloseReason := none } := Ext.of_eq rfl rfl rfl rfl
+  have h0 : Ext s { s with remoteCloseCode := none, remoteCloseReason := none } := Ext.of_eq rfl rfl rfl rfl rfl rfl rfl
   have h1 := closeCodeStep_Ext { s with remoteCloseCode := none, remoteCloseReason := none } code
+  have hl := closeCodeStep_legal { s with remoteCloseCode := none, remoteCloseReason := none } code rfl
   split
   · exact h0.trans h1
   · have h2 := closeReasonStep_Ext (closeCodeStep { s with remoteCloseCode := none, remoteCloseReason := none } code).1 reason
     split
     · exact (h0.trans h1).trans h2
-    · exact ((h0.trans h1).trans h2).trans (closeStateStep_Ext _)
+    · refine ((h0.trans h1).trans h2).trans (closeStateStep_Ext _ ?_)
+      intro c hc
+      rw [closeReasonStep_rcc] at hc
+      exact hl c hc
 
-theorem beginAutoPing_Ext (s : S) : Ext s (beginAutoPing s) := Ext.of_eq rfl rfl rfl rfl
+theorem beginAutoPing_Ext (s : S) : Ext s (beginAutoPing s) := Ext.of_eq rfl rfl rfl rfl rfl rfl rfl
 
 theorem sendAutoPing_Ext (s : S) : Ext s (sendAutoPing s) := by
   unfold sendAutoPing
@@ -231,28 +444,28 @@ theorem cancelAutoPingTimeout_Ext (s : S) : Ext s (cancelAutoPingTimeout s) := b
   unfold cancelAutoPingTimeout
   dsimp only
   split
-  · exact Ext.trans (by exact Ext.of_eq rfl rfl rfl rfl) (armPingNext_Ext _)
-  · exact Ext.of_eq rfl rfl rfl rfl
+  · exact Ext.trans (by exact Ext.of_eq rfl rfl rfl rfl rfl rfl rfl) (armPingNext_Ext _)
+  · exact Ext.of_eq rfl rfl rfl rfl rfl rfl rfl
 
 theorem onMessageFrameBegin_Ext (s : S) (n : Nat) : Ext s (onMessageFrameBegin s n) := by
   unfold onMessageFrameBegin
   dsimp only
   split
   · split
-    · exact Ext.trans (by exact Ext.of_eq rfl rfl rfl rfl) (failConnection_Ext _ _)
+    · exact Ext.trans (by exact Ext.of_eq rfl rfl rfl rfl rfl rfl rfl) (failConnection_Ext _ _ (by decide))
     · split
-      · exact Ext.trans (by exact Ext.of_eq rfl rfl rfl rfl) (failConnection_Ext _ _)
-      · exact Ext.of_eq rfl rfl rfl rfl
-  · exact Ext.of_eq rfl rfl rfl rfl
+      · exact Ext.trans (by exact Ext.of_eq rfl rfl rfl rfl rfl rfl rfl) (failConnection_Ext _ _ (by decide))
+      · exact Ext.of_eq rfl rfl rfl rfl rfl rfl rfl
+  · exact Ext.of_eq rfl rfl rfl rfl rfl rfl rfl
 
 theorem onFrameBegin_Ext (s : S) (h : Hdr) : Ext s (onFrameBegin s h) := by
   unfold onFrameBegin
   split
-  · exact Ext.of_eq rfl rfl rfl rfl
+  · exact Ext.of_eq rfl rfl rfl rfl rfl rfl rfl
   · dsimp only
     refine Ext.trans ?_ (onMessageFrameBegin_Ext _ _)
     split
-    · split <;> exact Ext.of_eq rfl rfl rfl rfl
+    · split <;> exact Ext.of_eq rfl rfl rfl rfl rfl rfl rfl
     · exact Ext.refl s
 
 theorem utf8Step_Ext (s : S) (p : Bytes) : Ext s (utf8Step s p).1 := by
@@ -260,20 +473,20 @@ theorem utf8Step_Ext (s : S) (p : Bytes) : Ext s (utf8Step s p).1 := by
   split
   · dsimp only
     split
-    · exact Ext.trans (by exact Ext.of_eq rfl rfl rfl rfl) (violation_Ext _ _)
-    · exact Ext.of_eq rfl rfl rfl rfl
+    · exact Ext.trans (by exact Ext.of_eq rfl rfl rfl rfl rfl rfl rfl) (violation_Ext _ _ (by decide))
+    · exact Ext.of_eq rfl rfl rfl rfl rfl rfl rfl
   · exact Ext.refl s
 
 theorem onMessageFrameData_Ext (s : S) (p : Bytes) : Ext s (onMessageFrameData s p) := by
   unfold onMessageFrameData
   split
-  · exact Ext.of_eq rfl rfl rfl rfl
+  · exact Ext.of_eq rfl rfl rfl rfl rfl rfl rfl
   · exact Ext.refl s
 
 theorem onFrameData_Ext (s : S) (h : Hdr) (p : Bytes) : Ext s (onFrameData s h p).1 := by
   unfold onFrameData
   split
-  · exact Ext.of_eq rfl rfl rfl rfl
+  · exact Ext.of_eq rfl rfl rfl rfl rfl rfl rfl
   · dsimp only
     split
     · exact utf8Step_Ext _ _
@@ -285,8 +498,8 @@ theorem onPongFrame_Ext (s : S) (p : Bytes) : Ext s (onPongFrame s p) := by
   · split
     · dsimp only
       split
-      · exact Ext.trans (by exact Ext.of_eq rfl rfl rfl rfl) (armPingNext_Ext _)
-      · exact Ext.of_eq rfl rfl rfl rfl
+      · exact Ext.trans (by exact Ext.of_eq rfl rfl rfl rfl rfl rfl rfl) (armPingNext_Ext _)
+      · exact Ext.of_eq rfl rfl rfl rfl rfl rfl rfl
     · exact Ext.refl s
   · exact Ext.refl s
 
@@ -300,7 +513,7 @@ theorem onPingFrame_Ext (s : S) (p : Bytes) : Ext s (onPingFrame s p) := by
 theorem processControlFrame_Ext (s : S) (h : Hdr) : Ext s (processControlFrame s h) := by
   unfold processControlFrame
   dsimp only
-  have h0 : Ext s { s with controlData := [] } := Ext.of_eq rfl rfl rfl rfl
+  have h0 : Ext s { s with controlData := [] } := Ext.of_eq rfl rfl rfl rfl rfl rfl rfl
   split
   · exact h0.trans (onCloseFrame_Ext _ _ _)
   · split
@@ -314,12 +527,12 @@ theorem endDataFrame_Ext (s : S) : Ext s (endDataFrame s) := by
   dsimp only
   have h0 : Ext s (if (!s.failedByMe) = true then { s with messageData := s.messageData ++ s.frameData } else s) := by
     split
-    · exact Ext.of_eq rfl rfl rfl rfl
+    · exact Ext.of_eq rfl rfl rfl rfl rfl rfl rfl
     · exact Ext.refl s
   generalize (if (!s.failedByMe) = true then { s with messageData := s.messageData ++ s.frameData } else s) = s1 at h0
   split
-  · exact h0.trans (Ext.trans (by exact Ext.of_eq rfl rfl rfl rfl) (cancelAutoPingTimeout_Ext _))
-  · exact h0.trans (by exact Ext.of_eq rfl rfl rfl rfl)
+  · exact h0.trans (Ext.trans (by exact Ext.of_eq rfl rfl rfl rfl rfl rfl rfl) (cancelAutoPingTimeout_Ext _))
+  · exact h0.trans (by exact Ext.of_eq rfl rfl rfl rfl rfl rfl rfl)
 
 theorem deliverMessage_Ext (s : S) : Ext s (deliverMessage s) := by
   unfold deliverMessage
@@ -327,7 +540,7 @@ theorem deliverMessage_Ext (s : S) : Ext s (deliverMessage s) := by
   · exact emit_Ext _ _ rfl
   · exact Ext.refl s
 
-theorem resetMessage_Ext (s : S) : Ext s (resetMessage s) := Ext.of_eq rfl rfl rfl rfl
+theorem resetMessage_Ext (s : S) : Ext s (resetMessage s) := Ext.of_eq rfl rfl rfl rfl rfl rfl rfl
 
 theorem endMessageStep_Ext (s : S) : Ext s (endMessageStep s).1 := by
   unfold endMessageStep
@@ -335,7 +548,7 @@ theorem endMessageStep_Ext (s : S) : Ext s (endMessageStep s).1 := by
   have h0 : Ext s (if (s.utf8On && !s.msgCompressed && !s.utf8Ends) = true then
       ((violation s 1007).1, !(violation s 1007).2) else (s, true)).1 := by
     split
-    · exact violation_Ext _ _
+    · exact violation_Ext _ _ (by decide)
     · exact Ext.refl s
   generalize (if (s.utf8On && !s.msgCompressed && !s.utf8Ends) = true then
       ((violation s 1007).1, !(violation s 1007).2) else (s, true)) = r at h0
@@ -346,18 +559,18 @@ theorem endMessageStep_Ext (s : S) : Ext s (endMessageStep s).1 := by
 theorem onFrameEnd_Ext (s : S) (h : Hdr) : Ext s (onFrameEnd s h).1 := by
   unfold onFrameEnd
   split
-  · exact (processControlFrame_Ext _ _).trans (by exact Ext.of_eq rfl rfl rfl rfl)
+  · exact (processControlFrame_Ext _ _).trans (by exact Ext.of_eq rfl rfl rfl rfl rfl rfl rfl)
   · dsimp only
     split
     · exact (endDataFrame_Ext _).trans (endMessageStep_Ext _)
-    · exact (endDataFrame_Ext _).trans (by exact Ext.of_eq rfl rfl rfl rfl)
+    · exact (endDataFrame_Ext _).trans (by exact Ext.of_eq rfl rfl rfl rfl rfl rfl rfl)
 
 theorem applyViolations_Ext (s : S) (vs : List HV) : Ext s (applyViolations s vs).1 := by
   induction vs generalizing s with
   | nil => exact Ext.refl s
   | cons v vs ih =>
     unfold applyViolations
-    have hv := violation_Ext s 1002
+    have hv := violation_Ext s 1002 (by decide)
     generalize violation s 1002 = r at hv
     obtain ⟨s', stop⟩ := r
     dsimp only
@@ -369,23 +582,23 @@ theorem extLenStep_Ext (s : S) (a b : Nat) : Ext s (extLenStep s a b).1 := by
   unfold extLenStep
   split
   · split
-    · exact violation_Ext _ _
+    · exact violation_Ext _ _ (by decide)
     · exact Ext.refl s
   · split
     · dsimp only
       have h0 : Ext s (if b > 0x7FFFFFFFFFFFFFFF then violation s 1002 else (s, false)).1 := by
         split
-        · exact violation_Ext _ _
+        · exact violation_Ext _ _ (by decide)
         · exact Ext.refl s
       generalize (if b > 0x7FFFFFFFFFFFFFFF then violation s 1002 else (s, false)) = r at h0
       split
       · exact h0
       · split
-        · exact h0.trans (violation_Ext _ _)
+        · exact h0.trans (violation_Ext _ _ (by decide))
         · exact h0
     · exact Ext.refl s
 
-theorem processHeader_Ext (s : S) (o0 o1 : UInt8) : Ext s (processHeader s o0 o1).1 := by
+theorem processHeader_Ext (s : S) (o0 o1 : UInt8) (buf : Bytes) : Ext s (processHeader s o0 o1 buf).1 := by
   unfold processHeader
   dsimp only
   have h0 := applyViolations_Ext s (headerViolations s.cfg s.insideMessage (o0.toNat / 128 = 1) (o0.toNat / 16 % 8)
@@ -397,24 +610,24 @@ theorem processHeader_Ext (s : S) (o0 o1 : UInt8) : Ext s (processHeader s o0 o1
   · split
     · have h1 := extLenStep_Ext r0.1 (o1.toNat % 128)
         (if o1.toNat % 128 < 126 then o1.toNat % 128 else
-          beNat ((r0.1.data.drop 2).take (if o1.toNat % 128 = 126 then 2 else if o1.toNat % 128 = 127 then 8 else 0)))
+          beNat ((buf.drop 2).take (if o1.toNat % 128 = 126 then 2 else if o1.toNat % 128 = 127 then 8 else 0)))
       generalize extLenStep r0.1 (o1.toNat % 128)
         (if o1.toNat % 128 < 126 then o1.toNat % 128 else
-          beNat ((r0.1.data.drop 2).take (if o1.toNat % 128 = 126 then 2 else if o1.toNat % 128 = 127 then 8 else 0))) = r1 at h1
+          beNat ((buf.drop 2).take (if o1.toNat % 128 = 126 then 2 else if o1.toNat % 128 = 127 then 8 else 0))) = r1 at h1
       split
       · exact h0.trans h1
-      · exact (h0.trans h1).trans (Ext.trans (by exact Ext.of_eq rfl rfl rfl rfl) (onFrameBegin_Ext _ _))
+      · exact (h0.trans h1).trans (Ext.trans (by exact Ext.of_eq rfl rfl rfl rfl rfl rfl rfl) (onFrameBegin_Ext _ _))
     · exact h0
 
-theorem processPayload_Ext (s : S) (h : Hdr) : Ext s (processPayload s h).1 := by
+theorem processPayload_Ext (s : S) (h : Hdr) (buf : Bytes) : Ext s (processPayload s h buf).1 := by
   unfold processPayload
   dsimp only
-  have h0 : Ext s { s with data := s.data.drop (h.length - s.ptr), ptr := s.ptr + (s.data.take (h.length - s.ptr)).length } :=
-    Ext.of_eq rfl rfl rfl rfl
-  have h1 := onFrameData_Ext { s with data := s.data.drop (h.length - s.ptr), ptr := s.ptr + (s.data.take (h.length - s.ptr)).length }
-    h (unmaskChunk s h (s.data.take (h.length - s.ptr)))
-  generalize onFrameData { s with data := s.data.drop (h.length - s.ptr), ptr := s.ptr + (s.data.take (h.length - s.ptr)).length }
-    h (unmaskChunk s h (s.data.take (h.length - s.ptr))) = r at h1
+  have h0 : Ext s { s with ptr := s.ptr + (buf.take (h.length - s.ptr)).length } :=
+    Ext.of_eq rfl rfl rfl rfl rfl rfl rfl
+  have h1 := onFrameData_Ext { s with ptr := s.ptr + (buf.take (h.length - s.ptr)).length }
+    h (unmaskChunk s h (buf.take (h.length - s.ptr)))
+  generalize onFrameData { s with ptr := s.ptr + (buf.take (h.length - s.ptr)).length }
+    h (unmaskChunk s h (buf.take (h.length - s.ptr))) = r at h1
   split
   · exact h0.trans h1
   · have h2 : Ext r.1 (if r.1.ptr = h.length then onFrameEnd r.1 h else (r.1, true)).1 := by
@@ -426,36 +639,38 @@ theorem processPayload_Ext (s : S) (h : Hdr) : Ext s (processPayload s h).1 := b
     · exact (h0.trans h1).trans h2
     · exact (h0.trans h1).trans h2
 
-theorem processData_Ext (s : S) : Ext s (processData s).1 := by
+theorem processData_Ext (s : S) (buf : Bytes) : Ext s (processData s buf).1 := by
   unfold processData
   split
   · split
-    · exact processHeader_Ext _ _ _
+    · exact processHeader_Ext _ _ _ _
     · exact Ext.refl s
-  · exact processPayload_Ext _ _
+  · exact processPayload_Ext _ _ _
 
-theorem drain_Ext (fuel : Nat) (s : S) : Ext s (drain fuel s) := by
-  induction fuel generalizing s with
+theorem drain_Ext (fuel : Nat) (s : S) (buf : Bytes) : Ext s (drain fuel s buf).1 := by
+  induction fuel generalizing s buf with
   | zero => exact Ext.refl s
   | succ n ih =>
     unfold drain
-    have h := processData_Ext s
-    generalize processData s = r at h
-    obtain ⟨s', again⟩ := r
+    have h := processData_Ext s buf
+    generalize processData s buf = r at h
     dsimp only
     split
-    · exact h.trans (ih _)
+    · exact h.trans (ih _ _)
     · exact h
 
 theorem dataReceived_Ext (s : S) (d : Bytes) : Ext s (dataReceived s d) := by
   unfold dataReceived
   split
   · exact Ext.refl s
-  · dsimp only
+  · have hd := drain_Ext (drainFuel (s.data ++ d)) { s with data := [] } (s.data ++ d)
+    have h0 : Ext s { s with data := [] } := Ext.of_eq rfl rfl rfl rfl rfl rfl rfl
     split
-    · exact Ext.trans (by exact Ext.of_eq rfl rfl rfl rfl) (drain_Ext _ _)
-    · exact Ext.trans (by exact Ext.of_eq rfl rfl rfl rfl) (drain_Ext _ _)
-    · exact Ext.of_eq rfl rfl rfl rfl
+    · dsimp only
+      exact (h0.trans hd).trans (by exact Ext.of_eq rfl rfl rfl rfl rfl rfl rfl)
+    · dsimp only
+      exact (h0.trans hd).trans (by exact Ext.of_eq rfl rfl rfl rfl rfl rfl rfl)
+    · exact Ext.of_eq rfl rfl rfl rfl rfl rfl rfl
 
 end Abverif.Ws
 
@@ -492,7 +707,7 @@ theorem sendMessage_Ext (s : S) (pl : Bytes) (b : Bool) (f : Option Nat) (sy : B
 theorem prepareKey_Ext (s : S) : Ext s (prepareKey s).1 := by
   unfold prepareKey
   split
-  · exact Ext.of_eq rfl rfl rfl rfl
+  · exact Ext.of_eq rfl rfl rfl rfl rfl rfl rfl
   · exact Ext.refl _
 
 theorem sendPrepared_Ext (s : S) (pl : Bytes) (b : Bool) : Ext s (sendPrepared s pl b) := by
@@ -510,12 +725,12 @@ theorem beginMessage_Ext (s : S) (b : Bool) : Ext s (beginMessage s b) := by
   · exact Ext.refl s
   · split
     · exact emit_Ext _ _ rfl
-    · exact Ext.of_eq rfl rfl rfl rfl
+    · exact Ext.of_eq rfl rfl rfl rfl rfl rfl rfl
 
 theorem setFrameState_Ext (s : S) (n : Nat) (k : Option Xor.Key) (op : Nat) : Ext s (setFrameState s n k op) :=
-  Ext.of_eq rfl rfl rfl rfl
+  Ext.of_eq rfl rfl rfl rfl rfl rfl rfl
 
-theorem enterFrame_Ext (s : S) : Ext s (enterFrame s) := Ext.of_eq rfl rfl rfl rfl
+theorem enterFrame_Ext (s : S) : Ext s (enterFrame s) := Ext.of_eq rfl rfl rfl rfl rfl rfl rfl
 
 theorem beginMessageFrameCore_Ext (s : S) (n : Nat) (s' : S) (h : beginMessageFrameCore s n = some s') : Ext s s' := by
   unfold beginMessageFrameCore at h
@@ -537,12 +752,12 @@ theorem beginMessageFrame_Ext (s : S) (n : Nat) : Ext s (beginMessageFrame s n) 
     · rename_i s' h; exact beginMessageFrameCore_Ext s n s' h
     · exact emit_Ext _ _ rfl
 
-theorem advanceFramePtr_Ext (s : S) (n : Nat) : Ext s (advanceFramePtr s n) := Ext.of_eq rfl rfl rfl rfl
+theorem advanceFramePtr_Ext (s : S) (n : Nat) : Ext s (advanceFramePtr s n) := Ext.of_eq rfl rfl rfl rfl rfl rfl rfl
 
 theorem leaveFrameIfDone_Ext (s : S) : Ext s (leaveFrameIfDone s) := by
   unfold leaveFrameIfDone
   split
-  · exact Ext.of_eq rfl rfl rfl rfl
+  · exact Ext.of_eq rfl rfl rfl rfl rfl rfl rfl
   · exact Ext.refl s
 
 theorem sendMessageFrameData_Ext (s : S) (pl : Bytes) (sy : Bool) : Ext s (sendMessageFrameData s pl sy) := by
@@ -561,7 +776,7 @@ theorem endMessage_Ext (s : S) : Ext s (endMessage s) := by
   · exact Ext.refl s
   · split
     · exact emit_Ext _ _ rfl
-    · exact (sendFrame_Ext _ _ _ _ _ _ _).trans (by exact Ext.of_eq rfl rfl rfl rfl)
+    · exact (sendFrame_Ext _ _ _ _ _ _ _).trans (by exact Ext.of_eq rfl rfl rfl rfl rfl rfl rfl)
 
 theorem sendMessageFrame_Ext (s : S) (pl : Bytes) (sy : Bool) : Ext s (sendMessageFrame s pl sy) := by
   unfold sendMessageFrame
@@ -582,27 +797,37 @@ theorem handshakeDone_Ext (s : S) : Ext s (handshakeDone s) := by
     have hc : s.st = .connecting := by simpa using h
     dsimp only
     have h0 : Ext s { s with st := .opened, tOpenHs := none } :=
-      Ext.of_st (by rw [hc]; simp [St.rank]) rfl rfl rfl
+      Ext.of_st (by rw [hc]; simp [St.rank]) rfl rfl rfl rfl (by simp)
     split
     · exact h0.trans (armPingNext_Ext _)
     · exact h0
 
+/-- a timeout handler of the form "clear my handle; if not yet CLOSED: mark unclean and drop" -/
+theorem fire_drop_Ext (s s1 s2 : S) (h1w : ExtW s s1) (hst1 : s1.st = s.st)
+    (h2w : Ext s1 s2) (hst2 : s2.st = s1.st) :
+    Ext s (if s1.st ≠ .closed then dropConnection s2 true else s1) := by
+  split
+  · exact ⟨h1w.trans (h2w.toExtW.trans (dropConnection_Ext _ _).toExtW),
+      fun _ hc => by rw [dropConnection_st] at hc; cases hc⟩
+  · rename_i hcl
+    exact ⟨h1w, fun _ hc => by simp at hcl; rw [hcl] at hc; cases hc⟩
+
 theorem fire_Ext (s : S) (k : TK) : Ext s (fire s k) := by
   cases k <;> simp only [fire]
   · split
-    · exact Ext.trans (by exact Ext.of_eq rfl rfl rfl rfl) (dropConnection_Ext _ _)
-    · exact Ext.of_eq rfl rfl rfl rfl
+    · exact Ext.trans (by exact Ext.of_eq rfl rfl rfl rfl rfl rfl rfl) (dropConnection_Ext _ _)
+    · exact Ext.of_eq rfl rfl rfl rfl rfl rfl rfl
+  · exact fire_drop_Ext s { s with tCloseHs := none } _
+      ⟨Nat.le_refl _, rfl, rfl, ⟨[], by simp, by simp⟩, Or.inl rfl⟩ rfl
+      (by exact Ext.of_eq rfl rfl rfl rfl rfl rfl rfl) rfl
+  · exact fire_drop_Ext s { s with tServerDrop := none } _
+      ⟨Nat.le_refl _, rfl, rfl, ⟨[], by simp, by simp⟩, Or.inl rfl⟩ rfl
+      (by exact Ext.of_eq rfl rfl rfl rfl rfl rfl rfl) rfl
   · split
-    · exact Ext.trans (by exact Ext.of_eq rfl rfl rfl rfl) (dropConnection_Ext _ _)
-    · exact Ext.of_eq rfl rfl rfl rfl
-  · split
-    · exact Ext.trans (by exact Ext.of_eq rfl rfl rfl rfl) (dropConnection_Ext _ _)
-    · exact Ext.of_eq rfl rfl rfl rfl
-  · split
-    · exact Ext.trans (by exact Ext.of_eq rfl rfl rfl rfl) (dropConnection_Ext _ _)
-    · exact Ext.of_eq rfl rfl rfl rfl
+    · exact Ext.trans (by exact Ext.of_eq rfl rfl rfl rfl rfl rfl rfl) (dropConnection_Ext _ _)
+    · exact Ext.of_eq rfl rfl rfl rfl rfl rfl rfl
   · exact sendAutoPing_Ext _
-  · exact Ext.trans (by exact Ext.of_eq rfl rfl rfl rfl) (sendTick_Ext _)
+  · exact Ext.trans (by exact Ext.of_eq rfl rfl rfl rfl rfl rfl rfl) (sendTick_Ext _)
 
 theorem advanceTo_Ext (target fuel : Nat) (s : S) : Ext s (advanceTo target fuel s) := by
   induction fuel generalizing s with
@@ -611,9 +836,9 @@ theorem advanceTo_Ext (target fuel : Nat) (s : S) : Ext s (advanceTo target fuel
     unfold advanceTo
     split
     · split
-      · exact Ext.trans (Ext.trans (by exact Ext.of_eq rfl rfl rfl rfl) (fire_Ext _ _)) (ih _)
-      · exact Ext.of_eq rfl rfl rfl rfl
-    · exact Ext.of_eq rfl rfl rfl rfl
+      · exact Ext.trans (Ext.trans (by exact Ext.of_eq rfl rfl rfl rfl rfl rfl rfl) (fire_Ext _ _)) (ih _)
+      · exact Ext.of_eq rfl rfl rfl rfl rfl rfl rfl
+    · exact Ext.of_eq rfl rfl rfl rfl rfl rfl rfl
 
 theorem pump_Ext (s : S) : Ext s (pump s) := advanceTo_Ext _ _ _
 
